@@ -12,6 +12,8 @@ import BV.C17.LemmasRange
 import BV.C17.LemmasHF
 import BV.C17.LemmasBits
 import BV.C17.LemmasClosed
+import BV.C17.LemmasConsec
+import BV.C17.LemmasTip
 import BV.Generated.C17
 namespace BV.C17
 open Spec Lemmas
@@ -270,6 +272,19 @@ theorem locateInventory_eq_spec (ps : List Nat) (hv : ValidFrom 1 ps) (t : Nat) 
   funext n
   simp [Index.known, hs]; omega
 
+/-- the Spec's answer for a non-empty locator is a run of consecutive active-chain blocks (an infix of
+    the chain) of at most `max` entries, whatever the locator holds -/
+theorem locate_consecutive (chain : List Nat) (known : Nat → Bool) (loc : List Nat) (stop max : Nat)
+    (hne : loc ≠ []) :
+    locate chain known loc stop max <:+: chain ∧ (locate chain known loc stop max).length ≤ max :=
+  Lemmas.locate_consecutive chain known loc stop max hne
+
+/-- the cut at the stop hash: a block satisfying the stop test can only be the last one taken -/
+theorem stop_only_last (stop : Nat) (l : List Nat) (x : Nat)
+    (h : x ∈ (takeThrough (· == stop) l).dropLast) : x ≠ stop := by
+  have := Lemmas.takeThrough_stop_last (· == stop) l x h
+  simpa using this
+
 /-! ### height-range queries -/
 
 /-- `HeightRange(s, e)` on the view of tip `t`: an error for a negative start or `e < s`, otherwise
@@ -452,6 +467,17 @@ theorem index_closed_under_parent (e : HF.Env) (h0 : e.parent 0 = 0) (ops : List
 
 example : ({ P := parentOf [0, 1], W := fun n => n, bad := fun _ => false } : HF.Env).parent 0 = 0 := by
   decide
+
+/-- after every interleaving the best tip is a stored block and so is every ancestor of it: the
+    whole active chain has its block data (no header-only or orphan entry is ever on it) -/
+theorem active_chain_stored (e : HF.Env) (h0 : e.parent 0 = 0) (ops : List HF.Op) (k : Nat) :
+    HF.up e k (HF.run e {} ops).b.tip ∈ (HF.run e {} ops).b.data := by
+  have ht : (HF.run e {} ops).b.tip ∈ (HF.run e {} ops).b.data :=
+    HF.run_tipStored e ops {} (by simp [HF.TipStored])
+  have hc := (HF.run_indexClosed e ops {} (HF.indexClosed_init e h0)).1
+  induction k with
+  | zero => exact ht
+  | succ k ih => exact hc _ ih
 
 /-- a failed re-organisation (a block of the branch fails validation, or the branch holds a
     known-invalid block) never moves the best tip -/
